@@ -63,6 +63,8 @@ package_info _ =
   let ExtUnit: ()->int
   let ExtProc: string->()
   let ExtTriple: int->string->bool->string
+  let ExtZero<T>: int->string->[]T
+  let ExtConv<T, U>: int->string->T*U
 
 package_info extpkg =
   type Counter
@@ -70,6 +72,7 @@ package_info extpkg =
   let Join3: string->string->string->string
   let NewCounter: ()->Counter
   let Bump: Counter->int->int
+  let Mk<T>: int->int->[]T
 
 `)
 	cl.WriteString("package main\n\nimport (\n\t\"fmt\"\n\t\"genprog/extpkg\"\n\n\t\"github.com/karino2/folang/pkg/frt\"\n)\n\nvar _ = frt.Println\nvar _ = extpkg.Twice\n\nfunc main() {\n")
@@ -263,6 +266,47 @@ let counter () =
   let c = extpkg.NewCounter ()
   extpkg.Bump c 5
 `)
+	// explicitly instantiated calls of generic package functions whose type parameter occurs only in
+	// the RESULT (Go cannot infer it: the emitted call must carry the type arguments), in every call
+	// form: full, partial (bound and called later), piped; unqualified and package-qualified; one and
+	// two type parameters.  The type arguments are drawn per program.
+	targs := []c03Ty{c03Base[0], c03Base[1], c03Base[2], c03Base[3], c03Base[5]}
+	pick := func() c03Ty { return targs[r.Intn(len(targs))] }
+	t1, t2, t3, t4, t5, t6, t7 := pick(), pick(), pick(), pick(), pick(), pick(), pick()
+	foB.WriteString(fmt.Sprintf(`let xFull () =
+  ExtZero<%s> 2 "a"
+
+let xPartial () =
+  let z = ExtZero<%s> 3
+  z "b"
+
+let xPiped () =
+  "c" |> ExtZero<%s> 1
+
+let xPkgFull () =
+  extpkg.Mk<%s> 1 2
+
+let xPkgPartial () =
+  let m = extpkg.Mk<%s> 2
+  m 3
+
+let xPkgPiped () =
+  4 |> extpkg.Mk<%s> 0
+
+let xTwoPartial () =
+  let q = ExtConv<%s, %s> 5
+  q "k"
+
+let xTwoPiped () =
+  "v" |> ExtConv<%s, %s> 6
+
+`, t1.fo, t2.fo, t3.fo, t4.fo, t5.fo, t6.fo, t7.fo, t1.fo, t2.fo, t7.fo))
+	cl.WriteString("\tfmt.Printf(\"%T/%d %T/%d %T/%d\\n\", xFull(), len(xFull()), xPartial(), len(xPartial()), xPiped(), len(xPiped()))\n")
+	cl.WriteString("\tfmt.Printf(\"%T/%d %T/%d %T/%d\\n\", xPkgFull(), len(xPkgFull()), xPkgPartial(), len(xPkgPartial()), xPkgPiped(), len(xPkgPiped()))\n")
+	cl.WriteString("\tfmt.Printf(\"%T %T\\n\", xTwoPartial(), xTwoPiped())\n")
+	exp.WriteString(fmt.Sprintf("[]%s/2 []%s/3 []%s/1\n", t1.goT, t2.goT, t3.goT))
+	exp.WriteString(fmt.Sprintf("[]%s/3 []%s/5 []%s/4\n", t4.goT, t5.goT, t6.goT))
+	exp.WriteString(fmt.Sprintf("frt.Tuple2[%s,%s] frt.Tuple2[%s,%s]\n", strings.ReplaceAll(t7.goT, " ", ""), strings.ReplaceAll(t1.goT, " ", ""), strings.ReplaceAll(t2.goT, " ", ""), strings.ReplaceAll(t7.goT, " ", "")))
 	cl.WriteString("\tfmt.Println(callsFull(), callsPartial(), callsPiped(), callsExplicit(), callsInferred(), callsUnit())\n\tcallsProc()\n")
 	cl.WriteString("\tfmt.Println(callsTriple0(), callsTriple1(), callsTriple2(), callsTriplePipe())\n")
 	cl.WriteString("\tfmt.Println(callsPkg(), callsPkgPartial(), callsPkgPipe(), counter())\n}\n")
@@ -274,13 +318,19 @@ let counter () =
 
 const c03Impl = `package main
 
-import "fmt"
+import (
+	"fmt"
+
+	"github.com/karino2/folang/pkg/frt"
+)
 
 func ExtAdd(a int, b int) string       { return fmt.Sprintf("ExtAdd(%d,%d)", a, b) }
 func ExtShow[T any](v T) string        { return fmt.Sprintf("ExtShow(%v)", v) }
 func ExtUnit() int                     { return 99 }
 func ExtProc(s string)                 { fmt.Printf("ExtProc(%s)\n", s) }
 func ExtTriple(a int, b string, c bool) string { return fmt.Sprintf("%d/%s/%v", a, b, c) }
+func ExtZero[T any](n int, s string) []T { return make([]T, n) }
+func ExtConv[T any, U any](n int, s string) frt.Tuple2[T, U] { var t T; var u U; return frt.NewTuple2(t, u) }
 `
 
 const c03Pkg = `package extpkg
@@ -291,6 +341,7 @@ func Twice(a int) int                  { return 2 * a }
 func Join3(a, b, c string) string      { return a + "+" + b + "+" + c }
 func NewCounter() Counter              { n := 100; return Counter{&n} }
 func Bump(c Counter, k int) int        { *c.n += k; return *c.n }
+func Mk[T any](a int, b int) []T       { return make([]T, a+b) }
 `
 
 // the declarations emitted for a union, read back with go/parser (same shape as Oracle.Decl.declSx)
